@@ -36,6 +36,10 @@ impl Rej {
 pub struct Dec<'a> {
 	pub data: &'a [u8],
 	pub pos: usize,
+	/// largest claimed count of zero-width elements that is expensive for a real decoder to
+	/// honour (anything but a vector-like of exactly `()`): lets callers skip such inputs
+	pub giant_zw: u64,
+	cheap_kind: bool,
 }
 
 pub const MAX_BITS: u64 = (1 << 29) - 1;
@@ -128,6 +132,9 @@ impl<'a> Dec<'a> {
 	fn elems(&mut self, elem: &Ty, n: u64) -> Result<Val, Rej> {
 		if elem.zero_width() {
 			// every claimed count is honestly backed: nothing to read
+			if *elem != Ty::Unit || !self.cheap_kind {
+				self.giant_zw = self.giant_zw.max(n);
+			}
 			let v = if n > 0 { self.val(elem)? } else { elem.default_val() };
 			return Ok(Val::Repeat(n, Box::new(v)));
 		}
@@ -196,7 +203,11 @@ impl<'a> Dec<'a> {
 			},
 			Ty::Seq { kind, elem, .. } => {
 				let n = self.compact(32)? as u64;
-				let v = self.elems(elem, n)?;
+				let saved = self.cheap_kind;
+				self.cheap_kind = matches!(kind, SeqKind::Vec | SeqKind::VecDeque | SeqKind::BinaryHeap | SeqKind::Slice);
+				let v = self.elems(elem, n);
+				self.cheap_kind = saved;
+				let v = v?;
 				match kind {
 					SeqKind::BTreeSet => dedup_sorted(v),
 					_ => v,
@@ -208,7 +219,13 @@ impl<'a> Dec<'a> {
 				if min > 0 && n.saturating_mul(min) > self.remaining() as u64 {
 					return Err(Rej::Eof);
 				}
-				assert!(min > 0 || n <= 1 << 20, "model: huge zero-width map");
+				if min == 0 {
+					self.giant_zw = self.giant_zw.max(n);
+					if n > 1 << 16 {
+						// domain decision: not materialised (callers skip on `giant_zw`)
+						return Err(Rej::Eof);
+					}
+				}
 				let mut entries: Vec<(Val, Val)> = Vec::with_capacity(n as usize);
 				for _ in 0..n {
 					let a = self.val(k)?;
@@ -309,7 +326,13 @@ fn dedup_sorted(v: Val) -> Val {
 
 /// Decode one value from the front of `data`: `Ok((value, bytes consumed))` or the rejection rule.
 pub fn ref_decode(ty: &Ty, data: &[u8]) -> Result<(Val, usize), Rej> {
-	let mut d = Dec { data, pos: 0 };
-	let v = d.val(ty)?;
-	Ok((v, d.pos))
+	ref_decode_ex(ty, data).0
+}
+
+/// As `ref_decode`, also reporting the largest expensive zero-width count met on the way.
+pub fn ref_decode_ex(ty: &Ty, data: &[u8]) -> (Result<(Val, usize), Rej>, u64) {
+	let mut d = Dec { data, pos: 0, giant_zw: 0, cheap_kind: false };
+	let r = d.val(ty);
+	let pos = d.pos;
+	(r.map(|v| (v, pos)), d.giant_zw)
 }
